@@ -102,3 +102,54 @@ class Poison(dict):
     def _boom(self, *a, **k):
         raise AssertionError("vote contents were read")
     __getitem__ = __contains__ = get = keys = items = values = __iter__ = __len__ = _boom
+
+
+# ---------------------------------------------------------------------------------------------
+# symbolic cards: which contests are listed, which candidate keys are present, and the marks
+class Card:
+    """bits of one symbolic record"""
+
+    def __init__(self, tag, i, contest, cands, kind, ex, style_bit=True, allow_missing_keys=True):
+        self.lists = z3.Bool(f"{tag}{i}_lists") if style_bit else z3.BoolVal(True)
+        self.key = {c: (z3.Bool(f"{tag}{i}_key_{c}") if allow_missing_keys else z3.BoolVal(True)) for c in cands}
+        self.val = {}
+        self.truthy = {}
+        inner = {}
+        for c in cands:
+            if kind == "bool":
+                b = z3.Bool(f"{tag}{i}_mark_{c}")
+                inner[c] = SB(b)
+                self.truthy[c] = b
+            elif kind == "int":
+                v = z3.Int(f"{tag}{i}_mark_{c}")
+                ex.assume(v >= 0)
+                inner[c] = SV(v)
+                self.truthy[c] = v != 0
+            else:       # literal encodings "", "marked" chosen by a fork on the truthiness bit
+                b = z3.Bool(f"{tag}{i}_mark_{c}")
+                inner[c] = "marked" if bool(SB(b)) else ""
+                self.truthy[c] = b
+            self.val[c] = inner[c]
+        self.contest = contest
+        self.votes = PresDict({contest: self.lists}, {contest: PresDict(self.key, inner)})
+
+    def vote(self, c):
+        """z3 Bool: the card shows a (truthy) mark for candidate c in the contest"""
+        return z3.And(self.lists, self.key[c], self.truthy[c])
+
+    def concrete(self, m, cands):
+        """plain votes dict of this card in model m"""
+        from symx.core import model_value
+        if not bool(model_value(m, self.lists)):
+            return {}
+        d = {}
+        for c in cands:
+            if bool(model_value(m, self.key[c])):
+                v = self.val[c]
+                if isinstance(v, SB):
+                    d[c] = bool(model_value(m, v.e))
+                elif isinstance(v, SV):
+                    d[c] = int(model_value(m, v.e))
+                else:
+                    d[c] = v
+        return {self.contest: d}
